@@ -77,7 +77,7 @@ contract(D, '_check_md5_of_url', props=['C20'], params={'output_path': 'elem', '
 _VALID0 = 'old(G.exists) and G.cs_available and md5(old(G.content)) == G.published'
 _GOOD = lambda i: 'md5(G.script[%s][1]) == G.published' % i
 _P0 = 'old(G.pos)'
-contract(D, 'download_file', props=['C20'], params={'url': 'elem', 'output_path': 'elem'},
+contract(D, 'download_file', props=['C20'], params={'url': 'elem', 'output_path': 'elem'}, modifies=['G.pos', 'G.exists', 'G.content'],
     requires=WORLD_OK + [('this-call', 'output_path == G.target and url == G.url')],
     result='opt[elem]',
     raises=[
